@@ -236,6 +236,8 @@ def run(prog, tier, extra=None):
     # supply is also inflated by an output spent twice inside one transaction or block, and by rebroadcast fees booked on the
     # wrong arm: decided by the C01 / C13 rules, cross-listed here
     from ._include import include
+    include(res, prog, tier, extra, "c01", ["C01.input-window"],
+            "an output collected as fees when it left the window must not be spendable afterwards: its value would exist twice")
     include(res, prog, tier, extra, "c01", ["C01.dup-scan", "C01.scan-exemptions"],
             "an input consumed twice inside one transaction or block pays out more than was consumed")
     include(res, prog, tier, extra, "c13", ["C13.handled", "C13.derive", "C13.window-block-on-disk"],
